@@ -114,7 +114,7 @@ class DictDecoder:
         Returns:
             An instance of the class type representing the parsed content.
         """
-        if set(data.keys()) == self.context.class_type.derived_keys:
+        if self.is_generic(data.keys(), self.context.class_type.derived_keys):
             return self.bind_derived_dataclass(data, clazz)
 
         meta = self.context.build(clazz)
@@ -161,7 +161,7 @@ class DictDecoder:
             An instance of the class type representing the parsed content.
         """
         qname = data["qname"]
-        xsi_type = data["type"]
+        xsi_type = data.get("type")
         params = data["value"]
 
         generic = self.context.class_type.derived_element
@@ -255,11 +255,11 @@ class DictDecoder:
             return self.bind_text(meta, var, value)
 
         keys = value.keys()
-        if keys == self.context.class_type.any_keys:
+        if self.is_generic(keys, self.context.class_type.any_keys):
             # Bind data to AnyElement dataclass
             return self.bind_dataclass(value, self.context.class_type.any_element)
 
-        if keys == self.context.class_type.derived_keys:
+        if self.is_generic(keys, self.context.class_type.derived_keys):
             # Bind data to AnyElement dataclass
             return self.bind_derived_value(meta, var, value)
 
@@ -362,7 +362,7 @@ class DictDecoder:
             The parsed object.
         """
         qname = data["qname"]
-        xsi_type = data["type"]
+        xsi_type = data.get("type")
         params = data["value"]
 
         if var.elements:
@@ -391,6 +391,24 @@ class DictDecoder:
 
         generic = self.context.class_type.derived_element
         return generic(qname=qname, value=value, type=xsi_type)
+
+    @classmethod
+    def is_generic(cls, keys: Iterable[str], generic_keys: set[str]) -> bool:
+        """Return whether the keys are the fields of a generic model.
+
+        The none filtering dict factory drops the optional
+        fields tail, text, type, the rest are always present.
+
+        Args:
+            keys: The keys of the input mapping
+            generic_keys: The field names of the generic model
+
+        Returns:
+            The bool result.
+        """
+        optional = {"tail", "text", "type"}
+        keys = set(keys)
+        return generic_keys - optional <= keys <= generic_keys
 
     @classmethod
     def find_var(
